@@ -47,10 +47,10 @@ static void lin3_one(Rep &R, const LD *e, const Pre &a, int npartners)
   check_linear_xfm<L>(R, c, a, P3[0].pre);
 }
 template <class L>
-static void aff3_one(Rep &R, const LD *e, const Pre &a, const ref::V &t)
+static void aff3_one(Rep &R, const LD *e, const Pre &a, const ref::V &t, int np)
 {
   Case c = case_of("aff3", Nm<L>::aff(), e, 9, &t, 3);
-  check_affine<L>(R, c, a, t, P3);
+  check_affine<L>(R, c, a, t, P3, np);
   check_affine_xfm<L>(R, c, a, t);
 }
 static void lin2_one(Rep &R, const LD *e, const Pre &a)
@@ -70,7 +70,7 @@ static void lin2_pair(Rep &R, const LD *ea, const Pre &a, const LD *eb, const Pr
 static void aff2_one(Rep &R, const LD *e, const Pre &a, const ref::V &t)
 {
   Case c = case_of("aff2", "AffineSpace2f", e, 4, &t, 2);
-  check_affine<LinearSpace2f>(R, c, a, t, P2);
+  check_affine<LinearSpace2f>(R, c, a, t, P2, 4);
 }
 template <class L>
 static void st_one(Rep &R, const ref::V &s)
@@ -105,7 +105,7 @@ static bool sweep_lin3(const LD *vals, int nv, int npartners, const char *label)
     vr::capped(std::string("3x3 linear sweep over ") + label + " stopped by the deadline");
   return done;
 }
-static bool sweep_aff3(const LD *vals, int nv, const char *label)
+static bool sweep_aff3(const LD *vals, int nv, int np, const char *label)
 {
   const long long total = ipow(nv, 9);
   bool done = par_blocks(total, 512, false, [&](Rep &R, long long b, long long e_) {
@@ -118,8 +118,8 @@ static bool sweep_aff3(const LD *vals, int nv, const char *label)
       R.count("affine_linear_parts_3x3");
       for (int ti = 0; ti < NTRANS; ti++) {
         const ref::V t = trans64(ti);
-        aff3_one<LinearSpace3f>(R, e, a, t);
-        aff3_one<LinearSpace3fa>(R, e, a, t);
+        aff3_one<LinearSpace3f>(R, e, a, t, np);
+        aff3_one<LinearSpace3fa>(R, e, a, t, np);
       }
     }
   });
@@ -285,7 +285,7 @@ static void replay_one(const std::string &r)
   } else if (kind == "aff3") {
     ref::V t = ref::vec(v[9], v[10], v[11]);
     if (prep_or_say(mat_from(3, v.data()), a))
-      fa ? aff3_one<LinearSpace3fa>(R, v.data(), a, t) : aff3_one<LinearSpace3f>(R, v.data(), a, t);
+      fa ? aff3_one<LinearSpace3fa>(R, v.data(), a, t, 4) : aff3_one<LinearSpace3f>(R, v.data(), a, t, 4);
   } else if (kind == "lin2") {
     if (prep_or_say(mat_from(2, v.data()), a))
       lin2_one(R, v.data(), a);
@@ -350,18 +350,18 @@ int main(int argc, char **argv)
   sweep_2d();
   lap("2x2 sweep");
   if (th) {
-    sweep_aff3(VALS5, 5, "{-2,-1,0,1/2,1}^9 x {-2,0,1,3}^3");
-    lap("3x3 affine sweep");
     sweep_lin3(VALS7, 7, 2, "{-2,-1,-1/2,0,1/2,1,2}^9");
     lap("3x3 linear sweep");
-  } else {
-    sweep_aff3(VALS4, 4, "{-1,0,1/2,2}^9 x {-2,0,1,3}^3");
+    sweep_aff3(VALS5, 5, 2, "{-2,-1,0,1/2,1}^9 x {-2,0,1,3}^3");
     lap("3x3 affine sweep");
+  } else {
     sweep_lin3(VALS4, 4, 4, "{-1,0,1/2,2}^9");
     lap("3x3 linear sweep");
+    sweep_aff3(VALS4, 4, 2, "{-1,0,1/2,2}^9 x {-2,0,1,3}^3");
+    lap("3x3 affine sweep");
   }
   vr::sample("lin3:LinearSpace3f:1,2,-0.5,0,1,2,-1,0.5,1  (M*inverse(M)=I, rcp, transposed, adjoint, rows, det(A*B), (A*B)x=A(Bx), xfmPoint/Vector/Normal against long double)");
-  vr::sample("aff3:AffineSpace3fa:2,-1,0,0.5,1,-2,1,0,0.5,3,0,-2  (rcp(A)*A, A*rcp(A), composition with 4 partner maps in both orders, xfm*)");
+  vr::sample("aff3:AffineSpace3fa:2,-1,0,0.5,1,-2,1,0,0.5,3,0,-2  (rcp(A)*A, A*rcp(A), composition with 2 partner maps in both orders, xfm*)");
   vr::sample("rot3:LinearSpace3fa:25,-17  (axis (1,1,1)/sqrt3, angle -17pi/12: fixes axis, turns perpendiculars right-handed, orthonormal, det +1; A::rotate(p,u,r) for 64 points p)");
   vr::sample("quat:quatd:13,8  (axis index 13, angle 8pi/12 = the trace-zero boundary of the matrix->quaternion constructor)");
   vr::sample("qpair:quatf:0,5,25,-24  (Hamilton product, composed rotation -> quaternion, slerp at t in {0,1/4,1/2,3/4,1})");
@@ -369,6 +369,7 @@ int main(int argc, char **argv)
   vr::sample("frame:vec3fa:4,21 and lookat:AffineSpace3f:5,40,10  (axes, origin, orthonormality, orientation)");
   vr::sample("lin2pair:LinearSpace2f:1,2,-0.5,1,2,-1,0.5,1  (all ordered pairs of kept 2x2 matrices)");
   vr::note("observation (not alarmed, not a run-time behaviour): AffineSpaceT::rotate(const Vector &p, const QuaternionT &q) does not compile when instantiated - 'translate(+p) * L(q) * translate(-p)' has no AffineSpaceT*LinearSpace3 operator; rotate(p,u,r) and rotate(q) are covered instead");
+  vr::note("largest error relative to its tolerance: " + std::to_string(vr::S().stats["max_err_permille_of_tolerance"] / 10.0) + " % at " + global_worst());
   vr::stat("traces", vr::S().stats["states"]);
   return vr::finish();
 }
